@@ -292,6 +292,17 @@ def run(ctx):
     wiring.flatten_order(ctx, "C03.f", m, "flattening:C-order")
     okn, whyn = _nd_mask(fnn)
     ctx.check(okn, "C03.f", "HistogramND.fill_n:mask", whyn, whyn, fnn.where)
+    tn_ = U(fnn.node)
+    polc = {}
+    for p_ in function_paths(fnn.node, loops=0):
+        cs_ = dict((U(s_[1]), s_[2]) for s_ in p_ if s_[0] == "cond")
+        if "columns" in cs_:
+            polc.setdefault(cs_["columns"], set()).add(any(s_[0] == "stmt" and U(s_[1]) == "values_array = values_array.T" for s_ in p_))
+    ctx.check(polc.get(True) == {True} and polc.get(False) == {False}, "C03.f", "HistogramND.fill_n:columns", "the batch is transposed iff columns=True",
+              f"transposition per `columns` decision: {polc}", fnn.where)
+    ctx.check("self._errors2 += errors2 if errors2 is not None else frequencies" in tn_, "C03.d", "HistogramND.fill_n:errors2-fallback",
+              "errors2 of the kernel, or the frequencies when the kernel returns none (unweighted)",
+              "the squared-error increment is not `errors2 if errors2 is not None else frequencies`", fnn.where)
     okg, whyg = _nd_weight_filter_guard(fnn)
     ctx.check(okg, "C03.f", "HistogramND.fill_n:weight-filter-guard", whyg, whyg, fnn.where)
     # the rows are filtered exactly when dropna is on, before the kernel sees them
@@ -307,6 +318,8 @@ def run(ctx):
 
     wiring.params_used(ctx, "C03.f", [m.cls(c_).methods[x] for c_ in ("Histogram1D", "HistogramND") for x in ("fill", "fill_n", "find_bin")],
                        "fill-family:options-read")
+    wiring.same_name_forwarding(ctx, "C03.f", m, [m.cls(c_).methods[x] for c_ in ("Histogram1D", "HistogramND") for x in ("fill", "fill_n", "find_bin")],
+                       "fill-family:options-forwarded")
 
     # ---- C03.e coercion before any accumulation (shared with C13.a) -----------------------------------------------
     ctx.rule("C03.e", "fill / fill_n coerce the dtype for the weight(s) before the first store, so neither contents nor missed values are truncated", 4)
